@@ -1316,6 +1316,19 @@ theorem first_type_alignment_witness :
     (∃ o, runOut .df ⟨[1, 0], [0], [], []⟩ data = some o ∧ readOut o 1 ⟨0, none⟩ 2 = .cnt 1) := by
   refine ⟨by decide, by decide, by decide, ⟨_, rfl, by decide⟩, ⟨_, rfl, by decide⟩⟩
 
+/-! ### wave 7: column keys are text — the naming condition and its negation witness -/
+
+/-- with state names `s1`, `s1_x` and property names `x_y`, `y`, two different columns have the same key text: the
+dictionary `get_stats_for` fills keeps only the later one (`s1_x_y_total`: total of `y` in state `s1_x` overwrites total
+of `x_y` in state `s1`).  Such requests are outside the model's domain (`keysDistinct = false`). -/
+theorem key_collision_witness :
+    renderKey ["s1", "s1_x"] ["x_y", "y"] ⟨0, some (0, .total)⟩ = renderKey ["s1", "s1_x"] ["x_y", "y"] ⟨1, some (1, .total)⟩ ∧
+    (⟨0, some (0, .total)⟩ : Col) ≠ ⟨1, some (1, .total)⟩ ∧
+    keysDistinct ["s1", "s1_x"] ["x_y", "y"] = false := by decide
+
+/-- names without the separator cannot collide — e.g. the wave-1 name tables. -/
+example : keysDistinct ["active", "s1", "s2"] ["x", "k", "nm", "y"] = true := by decide
+
 /-- The full property: the aggregates over `Int` (wave 1), over every ordered field with the mean as a quotient
 (instantiated at ℚ), and the selection / format independence of the reported cells. -/
 def C13_mean_every_population : Prop :=
@@ -1344,6 +1357,7 @@ theorem C13_full_proved : C13_full :=
 #print axioms C13_rat
 #print axioms C13_full_proved
 #print axioms C13_selection_proved
+#print axioms key_collision_witness
 #print axioms mean_general
 #print axioms mean_is_arithmetic_iff
 #print axioms meanDen_lastCarrier
